@@ -55,6 +55,10 @@ def run(ctx, chk):
         empty_suffixes=("Vec::<T, A>::is_empty", "<impl [T]>::is_empty"))]
     first_tests = option_switches(f, first_of_subs)
     tests += [(bb, none_t, some_t) for bb, x, some_t, none_t in first_tests]
+    # a repeated test behind a decided edge of an earlier one (second arm of a slice-pattern match: `[]` after
+    # `[first, ..]` failed) decides nothing new: the earlier test is *the* test
+    tests = [x for x in tests if not any(y is not x and y[0] != x[0] and
+                                         any(z is not None and f.b.dominates(z, x[0]) for z in (y[1], y[2])) for y in tests)]
     if not chk.require(len(tests) == 1, "C18/listed-apps-test", "read_card",
                        "expected one emptiness test of the reported application list, found %d" % len(tests), "", f.sp()):
         return
@@ -71,7 +75,8 @@ def run(ctx, chk):
                         "a bank card is reported without an application id", "under application_id.is_some()", f.sp(bb))
         # the tested application is element 0 of the list
         idx = [x for x in walk(e) if x[0] == "call" and x[1].endswith("Index::index")]
-        first = (idx and idx[0][2][1] == ("const", 0)) or any(first_of_subs(x) for x in walk(e))
+        first = (idx and idx[0][2][1] == ("const", 0)) or any(first_of_subs(x) for x in walk(e)) or \
+            any(x[0] in ("proj", "path") and "[0]" in x[2] and "[1]" not in x[2] and subs_of_tlv(x) for x in walk(e))   # `[first, ..]`
         chk.require(first, "C18/first-application", "read_card",
                     "the application id is not taken from the first listed application", "subs[0]", f.sp(sbb), nontrivial=False)
         chk.require(f.edge_dominates((tbb, nonempty_t), sbb), "C18/index-guarded", "subs[0]",
